@@ -82,16 +82,26 @@ func (w *Worker) RunResolveOrders(sk *Skeleton, property string) *SkelResult {
 	schemaPtr := types.NewPointer(m.P.NamedType("Schema"))
 	docsT := types.NewMap(types.Typ[types.String], schemaPtr)
 	differ := map[string]bool{}
+	var schemaWrites []string
 	m.Explore(func(m *sx.Machine) sx.Value {
 		m.OrderOncePerMap = true
 		m.AllOrders = true // (the kernel switches it off for its order-independent rendering; on again for every path)
 		s, _ := parse()
+		// the caller's schema tree is shared pre-state: Resolve must not write to it (C14); the
+		// documents a loader hands over are the resolver's own
+		m.TrackShared = true
 		im := sx.NewImporter(m)
+		im.Shared = true
+		root := im.Import(reflect.ValueOf(s), schemaPtr)
 		if sk.Universe != nil {
-			return m.Call(fn, im.Import(reflect.ValueOf(s), schemaPtr), im.Import(reflect.ValueOf(parseDocs()), docsT))
+			im2 := sx.NewImporter(m)
+			return m.Call(fn, root, im2.Import(reflect.ValueOf(parseDocs()), docsT))
 		}
-		return m.Call(fn, im.Import(reflect.ValueOf(s), schemaPtr))
+		return m.Call(fn, root)
 	}, func(m *sx.Machine, r *sx.PathResult) {
+		if len(r.SharedWrites) > 0 && len(schemaWrites) < 3 {
+			schemaWrites = append(schemaWrites, r.SharedWrites[0])
+		}
 		if r.Outcome == sx.OutPanic {
 			differ["panic: "+r.Msg] = true
 			return
@@ -122,6 +132,26 @@ func (w *Worker) RunResolveOrders(sk *Skeleton, property string) *SkelResult {
 	res.Solver = w.S.Stats
 	if res.Sample == nil {
 		res.Sample = map[string]any{"schema": sk.Doc, "iteration_orders_explored": res.Paths, "summary": trunc(want, 300)}
+	}
+	if len(schemaWrites) > 0 {
+		// replay: deep snapshot (incl. spare capacity) of the schema tree before and after a native Resolve
+		s, _ := parse()
+		before := DeepDump(s)
+		func() {
+			defer func() { recover() }()
+			if sk.Universe != nil {
+				jsonschema.VerifResolveSummaryWith(s, parseDocs())
+			} else {
+				jsonschema.VerifResolveSummary(s)
+			}
+		}()
+		if DeepDump(s) != before {
+			res.Findings = append(res.Findings, Finding{Property: property, Kind: "resolve-writes-schema", Skeleton: sk.Name, Family: sk.Family, Doc: sk.Doc, Draft: sk.Draft,
+				Expected: "Resolve leaves the Schema tree it is given unchanged", Observed: "the tree differs after Resolve (deep comparison); engine: " + schemaWrites[0]})
+		} else {
+			res.EngineErrors = append(res.EngineErrors, "engine reports a write into the schema tree during Resolve ("+schemaWrites[0]+") but the native deep comparison sees none")
+		}
+		return res
 	}
 	if len(differ) == 0 {
 		return res
